@@ -793,6 +793,16 @@ Section RsaProofs.
       apply rsa_decrypt_canonical in E. destruct E as [Hl [Hlt _]]. destruct Hc; [contradiction|lia]. }
     unfold RsaPad.decode_rsa_pad, RsaPad.rsa_decrypt_hashed. rewrite !Hn. split; reflexivity.
   Qed.
+
+  (* ---------- foreign key ---------- *)
+  (* a ciphertext made by RSAPad under ANOTHER public key (N', e') and decoded under (N, d) *)
+  Theorem pad_foreign_key : sha256_wf -> aes_wf -> aes_inverse -> aes_dec_wf -> aes_inverse_r ->
+    forall modexp' N' e' data r c,
+      RsaPad.rsa_pad sha256 aes_enc modexp' N' e' data r = Ok c ->
+      (forall tk x blk, length tk = 32%nat -> length x = 192%nat -> bytes_ok x ->
+                        pad_kae tk x = Ok blk -> rsa_decrypt c 256 <> Some blk) ->
+      decode_rsa_pad c = Err EInvalid \/ decode_rsa_pad c = Err EHashMismatch.
+  Proof. intros Hs Hw Hi Hdw Hir modexp' N' e' data r c _ Hno. apply pad_reject; assumption. Qed.
 End RsaProofs.
 
 (* ---------- non-vacuity: the hypothesis sets are satisfiable (degenerate but legal instance) ---------- *)
